@@ -43,6 +43,7 @@
 #include <fcntl.h>
 #include <sys/wait.h>
 #include "soxr.h"
+#include "soxr-lsr.h"
 
 void * __real_malloc(size_t);
 void * __real_calloc(size_t, size_t);
@@ -188,6 +189,9 @@ typedef struct {
   unsigned ch;
   unsigned long q, qf, rtf;
   int simd, ldft, mdft, split, coefkb;
+  int lsr;                          /* >= 0: the job goes through the libsamplerate-compatible wrapper (soxr-lsr.c) with this converter
+                                     * type; lsrcb: through its callback API (src_callback_new / src_callback_read) */
+  int lsrcb;
   char ops[1024];
   int timeout;
 } job_t;
@@ -222,8 +226,87 @@ static void fill_input(void)
     inbuf[i] = (float)(.4 * sin(i * .013) + .3 * sin(i * .41) + .1 * ((i * 2654435761u >> 8 & 0xffff) / 65536. - .5));
 }
 
+/* the same script through the wrapper: Z = src_new / src_callback_new (a soxr_create with both rates open, plus soxr_set_input_fn),
+ * P = src_process / src_callback_read at the job's ratio (the first one completes the deferred initialisation), K = src_reset,
+ * F = end of input and drain, D = src_delete.  An SRC_STATE is the soxr object itself. */
+static long lsr_cb_left;
+static long lsr_cb(void * st, float * * data) { long n = lsr_cb_left > 1000? 1000 : lsr_cb_left; (void)st; *data = inbuf; lsr_cb_left -= n; return n; }
+
+static int run_lsr_job(job_t const * j)
+{
+  SRC_STATE * s = 0;
+  char ops[1024], * tok, * save = 0;
+  int op = 0, failed_op = 0, err = 0;
+  unsigned ch = j->ch ? j->ch : 1;
+  size_t maxframes = NBUF / ch;
+  double ratio = j->orate / j->ir;
+  soxr_error_t e = 0;
+  if (j->simd >= 0) setenv("SOXR_USE_SIMD", j->simd ? "1" : "0", 1); else unsetenv("SOXR_USE_SIMD");
+  strcpy(ops, j->ops);
+  for (tok = strtok_r(ops, ",", &save); tok; tok = strtok_r(0, ",", &save), ++op) {
+    char kind = tok[0];
+    char const * a1 = strchr(tok, ':'), * a2 = a1 ? strchr(a1 + 1, ':') : 0;
+    cur_op = op; e = 0; err = 0;
+    if (kind == 'Z' || kind == 'C') {
+      armed = 1;
+      s = j->lsrcb ? src_callback_new(lsr_cb, j->lsr, (int)ch, &err, 0) : src_new(j->lsr, (int)ch, &err);
+      armed = 0;
+      e = err ? "lsr: error code returned" : 0;
+      checkpoint(op, tok, e);
+      if (!s) {
+        if (!err) emit("@NOTE null handle without error code\n");
+        emit("@DONE live=%d created=0\n", nblk);
+        checkpoint(op + 1, "end", 0);
+        return 0;
+      }
+      if (err) emit("@NOTE handle returned together with an error code\n");
+      continue;
+    }
+    if (!s) break;
+    if (kind == 'P' || kind == 'F') {
+      size_t n = kind == 'F' ? 0 : a1 ? (size_t)num(a1 + 1) : 1000, blocks = kind == 'F' ? 200 : a2 ? (size_t)num(a2 + 1) : 1, b;
+      if (n > maxframes) n = maxframes;
+      for (b = 0; b < blocks && !e; ++b) {
+        if (j->lsrcb) {
+          long got;
+          lsr_cb_left = kind == 'F' ? 0 : (long)n;
+          armed = 1; got = src_callback_read(s, ratio, (long)(maxframes * 2 / (ratio > 1 ? 1 : 1)), outbuf); armed = 0;
+          if (src_error(s)) e = src_strerror(src_error(s));
+          if (kind == 'F' && !got) break;
+        } else {
+          SRC_DATA d; memset(&d, 0, sizeof d);
+          d.data_in = inbuf; d.data_out = outbuf; d.input_frames = (long)n; d.output_frames = (long)(maxframes * 2);
+          d.src_ratio = ratio; d.end_of_input = kind == 'F';
+          armed = 1; err = src_process(s, &d); armed = 0;
+          if (err) e = src_strerror(err);
+          if (kind == 'F' && !d.output_frames_gen) break;
+        }
+      }
+    }
+    else if (kind == 'K') { armed = 1; err = src_reset(s); armed = 0; if (err) e = src_strerror(err); }
+    else if (kind == 'I' || kind == 'R' || kind == 'N') continue;      /* the wrapper passes the ratio with every call */
+    else if (kind == 'D') break;
+    else { emit("@NOTE unknown op %s\n", tok); continue; }
+    checkpoint(op, tok, e);
+    if (e) { failed_op = 1; ++op; break; }
+  }
+  cur_op = op;
+  if (s && failed_op) {
+    SRC_DATA d; memset(&d, 0, sizeof d);
+    d.data_in = inbuf; d.data_out = outbuf; d.input_frames = 16; d.output_frames = 64; d.src_ratio = ratio;
+    armed = 1; err = src_process(s, &d); armed = 0;
+    emit("@POKE err=%d odone=%lu sticky=%d\n", err != 0, (unsigned long)d.output_frames_gen, src_error(s) != 0);
+  }
+  armed = 1; src_delete(s); armed = 0;
+  emit("@DONE live=%d created=1\n", nblk);
+  checkpoint(op, "end", 0);
+  return 0;
+}
+
 static int run_job(job_t const * j)
 {
+  if (j->lsr >= 0) return run_lsr_job(j);
+  {
   soxr_t s = 0;
   soxr_error_t e = 0;
   soxr_quality_spec_t q = soxr_quality_spec(j->q, j->qf);
@@ -316,6 +399,7 @@ static int run_job(job_t const * j)
   emit("@DONE live=%d created=1\n", nblk);
   checkpoint(op, "end", 0);
   return 0;
+  }
 }
 
 /* ------------------------------------------------------------------ parent */
@@ -391,6 +475,7 @@ int main(int argc, char * * argv)
   j.ir = 1; j.orate = 2; j.phase = -1; j.prec = -1; j.pb = -1; j.sb = -1; j.ch = 1; j.q = SOXR_HQ; j.simd = -1;
   j.timeout = 20;
   strcpy(j.ops, "C,P:1000:2,F,D");
+  j.lsr = -1;
   for (i = 1; i < argc; ++i) {
     char * a = argv[i], * v = strchr(a, '=');
     if (!v) continue;
@@ -410,6 +495,8 @@ int main(int argc, char * * argv)
     else if (!strcmp(a, "mdft")) j.mdft = (int)num(v);
     else if (!strcmp(a, "coefkb")) j.coefkb = (int)num(v);
     else if (!strcmp(a, "split")) j.split = (int)num(v);
+    else if (!strcmp(a, "lsr")) j.lsr = (int)num(v);
+    else if (!strcmp(a, "lsrcb")) j.lsrcb = (int)num(v);
     else if (!strcmp(a, "ops")) strncpy(j.ops, v, sizeof j.ops - 1);
     else if (!strcmp(a, "timeout")) j.timeout = (int)num(v);
     else if (!strcmp(a, "record")) record = (int)num(v);
